@@ -3,10 +3,15 @@
    implementation must show) is carried along and printed as one behaviour per line. *)
 EXTENDS FjallTx, Json
 CONSTANT SimDepth
-VARIABLE hist
-SimInit == Init /\ hist = <<>>
-SimNext == Next /\ hist' = Append(hist, last')
-SimSpec == SimInit /\ [][SimNext]_<<vars, hist>>
+VARIABLE hist,
+         msel   \* the range shapes this behaviour reads with: at most two of the enabled ones, so that the
+                \* share of reads among a behaviour's steps does not grow with the number of shapes
+RangeSel == LET R == Methods \cap RangeMethods IN
+            IF Cardinality(R) <= 2 THEN {R} ELSE {S \in SUBSET R : Cardinality(S) = 2}
+SimInit == Init /\ hist = <<>> /\ msel \in RangeSel
+SimNext == /\ Next /\ hist' = Append(hist, last') /\ UNCHANGED msel
+           /\ (last'.a = "Read" /\ last'.m \in RangeMethods) => last'.m \in msel
+SimSpec == SimInit /\ [][SimNext]_<<vars, hist, msel>>
 AllDone == \A t \in Txs : tx[t].st \notin {"idle", "open"}
 ExportHist == (TLCGet("level") = SimDepth \/ AllDone) => PrintT(<<"BEHAVIOUR", ToJson(hist)>>)
 TxView == <<seqno, visible, ents, tx, table, trk, writer, nval, commits, allc, bad>>
